@@ -130,8 +130,38 @@ class SinkFault(Exception):
     pass
 
 
+_PROBE = bytes([0x04, 0x0E, 0x03, 0x01, 0x02, 0x03])
+_SCALARS = (int, bool, str, type(None))
+_BUFFERS = (bytes, bytearray)
+
+
+def _buf(v):
+    return (len(v), v[0] if v else None)
+
+
+def _other(v):
+    if isinstance(v, (bytes, bytearray, memoryview)):
+        return (len(v), v[0] if len(v) else None)
+    if isinstance(v, int):  # enums
+        return int(v)
+    if isinstance(v, dict):
+        return len(v)
+    if callable(v):
+        return None
+    return getattr(v, 'name', type(v).__name__)
+
+
+_NODE_OF = {int: None, bool: None, str: None, type(None): None, bytes: _buf, bytearray: _buf}
+
+
 def node(parser):
-    return (parser.state, parser.bytes_needed, len(parser.packet), parser.packet[0] if parser.packet else None)
+    # every data attribute of the parser, whatever it is called (values in attribute order): buffers by (length, first
+    # octet), scalars by value, anything else by a short description
+    out = []
+    for v in parser.__dict__.values():
+        f = _NODE_OF.get(type(v), _other)
+        out.append(v if f is None else f(v))
+    return tuple(out)
 
 
 def run_push(pkts, data, cuts, graph=None, raise_on=None, exc=None):
@@ -161,8 +191,14 @@ def run_push(pkts, data, cuts, graph=None, raise_on=None, exc=None):
     for k, (w, e) in enumerate(zip(rec.when, ends)):
         if w < e:
             return f'packet {k} delivered after {w} bytes fed but ends at {e}'
-    if node(parser) != (0, 1, 0, None):
-        return f'parser not back in initial state: {node(parser)}'
+    # the parser is ready for the next packet (judged by what it does, not by what its fields hold)
+    if raise_on is not None:
+        return None
+    probe = _PROBE
+    n0 = len(rec.got)
+    parser.feed_data(probe)
+    if rec.got[n0:] != [probe]:
+        return f'after the whole stream, one more well-formed packet was not framed: got {[p.hex() for p in rec.got[n0:]]} (parser {node(parser)})'
     return None
 
 
@@ -601,7 +637,7 @@ def run(ctx: core.Context) -> int:
         'states': len(nodes),
         'transitions': len(edges),
         'traces_validated_against_impl': total_runs,
-        'state_definition': 'PacketParser (state, bytes_needed, len(packet), type byte) observed between feed calls',
+        'state_definition': 'every data attribute of the PacketParser (buffers as (length, first octet)) observed between feed calls',
         'alphabet': [list(a) for a in alphabet()],
     }
     return core.finish(
